@@ -238,6 +238,64 @@ def check_limit(acc, ci):
     acc.sample({'rule': 'StartLimitCurrent', 'limit/imax': 0.6, 'motor speed/w0': 0.5, 'theta': 'target -+ 1e-6'})
 
 
+def check_sequential(acc, ci):
+    """ONE model and ONE rule object per kind, applied to a sequence of states (time, position, speed and motor
+    load all change between calls): every answer must be the documented function of the CURRENT state."""
+    spec = spec_of(ci)
+    chain = sim.chain_ref(spec)
+    eta = eta_total(chain)
+    n = chain.n
+    states = [  # (t, theta_last, motor speed / w0, motor load / Tmax)
+        (0.0, 0.0, 0.0, 0.1), (0.3, 0.4, 0.3, 0.3), (0.5, 3.9, 0.6, -0.05), (0.76, 9.5, 0.2, 0.2),
+        (0.2, 1.0, 0.9, 0.0), (2.0, 10.5, 0.1, 0.25), (0.4, 0.2, 0.5, 0.1), (0.74, 8.7, 0.0, 0.15)]
+    for order in (states, states[::-1], states[1::2] + states[0::2]):
+        m = sim.Model(spec)
+        motor, last = m.elements[0], m.elements[-1]
+        rules = {
+            'constant': ConstantPWM(timer=Timer(Time(0.25, 'sec'), TimeInterval(0.5, 'sec')), powertrain=m.pt, target_pwm_value=0.4),
+            'reach': ReachAngularPosition(encoder=AbsoluteRotaryEncoder(last), powertrain=m.pt,
+                                          target_angular_position=AngularPosition(10.0, 'rad'), braking_angle=Angle(2.0, 'rad')),
+            'limit': StartLimitCurrent(encoder=AbsoluteRotaryEncoder(last), tachometer=Tachometer(motor), motor=motor,
+                                       target_angular_position=AngularPosition(4.0, 'rad'),
+                                       limit_electric_current=Current(0.6 * chain.imax, 'A')),
+        }
+        case0 = {'kind': 'sequential', 'chain': ci, 'order': [list(x) for x in order]}
+        for step, (t, th, sr, lf) in enumerate(order):
+            w_m = sr * chain.w0
+            rh.set_state(m, chain, t, th, w_m / chain.up[0], motor_load=lf * chain.Tmax)
+            case = dict(case0, step=step)
+            acc.transitions += 3
+            acc.nstates += 1
+            got = rules['constant'].apply()
+            exp = 0.4 if 0.25 <= t <= 0.75 else None
+            if got != exp:
+                acc.violation('C15/sequential/ConstantPWM', 'a reused rule answers for the current state', case, {'got': got, 'expected': exp, 't': t})
+                return
+            got = rules['reach'].apply()
+            ths = 10.0 - 2.0 + lf / eta * 2.0
+            exp = 1 - (th - ths) / 2.0 if th >= ths else None
+            if abs(th - ths) > 1e-6 and ((got is None) != (exp is None) or (exp is not None and not si.close(got, exp, 1e-9, 1.0))):
+                acc.violation('C15/sequential/ReachAngularPosition', 'a reused rule answers for the current state (current motor load torque)', case,
+                              {'got': got, 'expected': exp, 'theta': th, 'theta_s': ths})
+                return
+            got = rules['limit'].apply()
+            if th > 4.0:
+                if got is not None:
+                    acc.violation('C15/sequential/StartLimitCurrent', 'None beyond the target', case, {'got': got})
+                    return
+            elif got is None:
+                acc.violation('C15/sequential/StartLimitCurrent', 'applicable while theta <= target', case, {})
+                return
+            elif -1 <= float(got) <= 1:
+                i = ref.motor_current(chain.Tmax, chain.w0, float(got), w_m, chain.i0, chain.imax)
+                if not si.close(i, 0.6 * chain.imax, 1e-9, chain.imax):
+                    acc.violation('C15/sequential/StartLimitCurrent', 'a reused rule answers for the current speed', case,
+                                  {'D': float(got), 'i(D,w)': i, 'limit': 0.6 * chain.imax})
+                    return
+    acc.outcomes[('sequential', ci)] += 1
+    acc.sample({'rule': 'one rule object of each kind applied to a sequence of 8 states in 3 orders', 'chain': ci})
+
+
 def check_limit_sim(acc, ci, lf, load_frac):
     spec = spec_of(ci)
     chain = sim.chain_ref(spec)
@@ -292,6 +350,7 @@ def run_shard(shard, tier):
     elif kind == 'limit':
         check_limit(acc, ci)
     else:
+        check_sequential(acc, ci)
         for lf in (0.3, 0.6, 0.9):
             for load in (0.05, 0.3, 0.6):
                 check_limit_sim(acc, ci, lf, load)
@@ -304,6 +363,9 @@ def run_shard(shard, tier):
 def replay(case):
     acc = Acc()
     k = case.get('kind')
+    if k == 'sequential':
+        check_sequential(acc, case['chain'])
+        return acc.violations
     if k == 'limsim':
         check_limit_sim(acc, case['chain'], case['lim_frac'], case['load_frac'])
         return acc.violations
